@@ -310,6 +310,7 @@ Definition host_is (t : N) (g : gores) : bool :=
   match g with
   | GErrRes e => gerr_is t e
   | GPanic (PVExc v _) => value_is t v
+  | GPanic (PVValue v) => value_is t v      (* the panic value is the GoError object itself *)
   | GPanic (PVErr e) => gerr_is t e
   | _ => false
   end.
